@@ -107,7 +107,7 @@ def main():
     seed = int(sys.argv[2]) if len(sys.argv) > 2 else 0
     rep = Report("C12", tier, seed)
     all_specs = cm.all_specs(tier, seed)
-    specs = [s for s in all_specs if s.name.startswith(("core-", "layout-", "multi-", "first-"))]
+    specs = [s for s in all_specs if s.name.startswith(("core-", "layout-", "multi-", "first-", "second-"))]
     gdir, path, _s, entries = generate(tier, seed, check_fn="check_c12", specs=specs, modname="c12_gen", header=HEADER)
     # selections: multi-item pages, the ordering index is an extra argument
     from vlib import gen
